@@ -6,7 +6,7 @@ def f(a, b, c, d):
     def g(): return a + e
     return g
 base = f.__code__
-MARK = {"consts": 30, "names": 20, "vars": 4, "cells": ["v0", "c1"], "frees": ["f0"]}
+MARK = {"consts": 30, "names": 20, "vars": 4, "cells": ["v0", "c1"], "frees": ["f0", "v1"]}
 def enc(name): return ord(name[0]) * 1000 + int(name[1:])
 def mk(code):
     kw = dict(co_code=bytes(bytearray(code)), co_consts=tuple(1000 + i for i in range(MARK["consts"])), co_names=tuple("n%d" % i for i in range(MARK["names"])),
